@@ -349,7 +349,7 @@ func (e *Engine) newTrans(fn *ssa.Function, c *Contract) *FnTrans {
 		vals: map[ssa.Value]Val{}, in: map[*ssa.BasicBlock]*BState{}, out: map[*ssa.BasicBlock]*BState{},
 		sites: map[ssa.CallInstruction]*Site{}, siteByAlias: map[string]*Site{}, siteDeclOf: map[ssa.CallInstruction][]string{},
 		abstracted: map[string]int{}, usedSpecs: map[string]bool{}, lets: map[string]*Expr{}, siteInstr: map[string]ssa.CallInstruction{}, ghostSites: map[string]*Site{}, loopInfo: map[int]string{},
-		closures: map[string]*ssa.MakeClosure{}, storeSites: map[*ssa.Store][]string{}, eventSites: map[eventKey][]string{}, eventAliases: map[string]bool{}, usedGlobalInvs: map[string]Clause{}, heapAnc: map[string][]*frameFact{}, baseAC: map[string]string{}, heapBases: map[string][]string{}, baseDone: map[string]bool{}, frameDone: map[string]bool{}, escCache: map[*ssa.Alloc]bool{}, autoInvs: map[*ssa.BasicBlock]func(string, int) string{}, autoPhis: map[*ssa.BasicBlock][]*ssa.Phi{}, ifaceTests: map[string]types.Type{}}
+		closures: map[string]*ssa.MakeClosure{}, storeSites: map[*ssa.Store][]string{}, eventSites: map[eventKey][]string{}, rangeVisited: map[*ssa.Range]string{}, rangeDom0: map[*ssa.Range]string{}, eventAliases: map[string]bool{}, usedGlobalInvs: map[string]Clause{}, heapAnc: map[string][]*frameFact{}, baseAC: map[string]string{}, heapBases: map[string][]string{}, baseDone: map[string]bool{}, frameDone: map[string]bool{}, escCache: map[*ssa.Alloc]bool{}, autoInvs: map[*ssa.BasicBlock]func(string, int) string{}, autoPhis: map[*ssa.BasicBlock][]*ssa.Phi{}, ifaceTests: map[string]types.Type{}}
 	if c != nil {
 		tr.props = c.Props
 	}
